@@ -34,6 +34,7 @@ type CutSpec struct {
 	Havoc  []SpecExpr
 	Assert SpecExpr
 	Keep   bool      // lemma: nothing is havoced and no fact is forgotten
+	Split  bool      // split: no obligation; the path forks on the condition
 	Assume *SpecExpr // bridge fact assumed (not proved) at this point; listed among the assumptions
 }
 
@@ -459,7 +460,13 @@ func ParseContracts(file, pkg string, configOK func(pred string) bool) (*PkgCont
 					cur.Alias = append(cur.Alias, ap)
 				}
 			}
-		case kw == "cut" || kw == "lemma":
+		case kw == "cut" || kw == "lemma" || kw == "split":
+			isSplit := kw == "split"
+			if isSplit {
+				// split <anchor> : cond   ==  a lemma-like anchor at which the path forks on cond (case analysis)
+				kw = "lemma"
+				body = "lemma" + body[len("split"):]
+			}
 			if kw == "lemma" {
 				// lemma <anchor> : expr   ==  cut <anchor> havoc : expr, keeping all facts
 				i := strings.Index(body, ":")
@@ -510,6 +517,7 @@ func ParseContracts(file, pkg string, configOK func(pred string) bool) (*PkgCont
 			}
 			cs.Assert = e
 			if named {
+				cs.Split = isSplit
 				cur.NamedCuts = append(cur.NamedCuts, cs)
 			} else {
 				cur.Cuts[n] = cs
